@@ -886,3 +886,177 @@ Proof.
     destruct ds as [|c r]; [congruence|]. simpl in Hd. apply andb_true_iff in Hd as [Hc Hr].
     rewrite (strip_sign_digit _ _ Hc). split; [discriminate|]. simpl. now rewrite Hc, Hr.
 Qed.
+
+(* ================= copies of a native term ================= *)
+Lemma term_eqb_litdt l d t : term_eqb (LitDt l d) t = true -> t = LitDt l d.
+Proof.
+  destruct t; simpl; try discriminate. intros H. apply andb_true_iff in H as [H1 H2].
+  apply str_eqb_eq in H1, H2. now subst.
+Qed.
+(* a term that is Term::eq to a native term IS that literal: same lexical form, same datatype *)
+Theorem native_rep_eq digits_of fixed v t :
+  term_eqb (native_term digits_of fixed v) t = true -> t = native_term digits_of fixed v.
+Proof. apply term_eqb_litdt. Qed.
+Theorem native_is_literal digits_of fixed v :
+  kind_of (native_term digits_of fixed v) = KLiteral
+  /\ lexical_form (native_term digits_of fixed v) = Some (lexical_native digits_of fixed v)
+  /\ datatype (native_term digits_of fixed v) = datatype_native v.
+Proof. repeat split. Qed.
+Theorem reps_ok_sound digits_of fixed v kinds images :
+  reps_ok (native_term digits_of fixed v) kinds images = true ->
+  (forall k, In k kinds -> k = 2) /\ (forall t, In t images -> t = native_term digits_of fixed v).
+Proof.
+  unfold reps_ok. intros H. apply andb_true_iff in H as [H1 H2].
+  rewrite forallb_forall in H1, H2. split.
+  - intros k Hk. specialize (H1 k Hk). unfold native_term in H1. cbn [kind_of kind_rank] in H1.
+    apply N.eqb_eq in H1. now subst.
+  - intros t Ht. apply native_rep_eq. auto.
+Qed.
+(* the round trips hold in every representation: whatever is Term::eq to the native term converts
+   back to the value *)
+Theorem int_rep_roundtrip digits_of fixed ty z t :
+  in_ity ty z = true -> term_eqb (native_term digits_of fixed (NInt ty z)) t = true ->
+  try_int fixed ty t = inr z.
+Proof. intros Hi H. rewrite (native_rep_eq _ _ _ _ H). now apply int_roundtrip. Qed.
+Theorem bool_rep_roundtrip digits_of fixed b t :
+  term_eqb (native_term digits_of fixed (NBool b)) t = true -> try_bool t = Some b.
+Proof. intros H. rewrite (native_rep_eq _ _ _ _ H). apply bool_roundtrip. Qed.
+Theorem str_rep_roundtrip digits_of fixed s t :
+  term_eqb (native_term digits_of fixed (NStr s)) t = true ->
+  lexical_form t = Some s /\ datatype t = xsd_string.
+Proof. intros H. rewrite (native_rep_eq _ _ _ _ H). apply str_roundtrip. Qed.
+Theorem f64_rep_roundtrip_class (digits_of : N -> Z -> str * Z) :
+  (forall m e, all_digits (fst (digits_of m e)) = true) ->
+  forall x t, term_eqb (native_term digits_of true (NF64 x)) t = true ->
+  try_f64 true t = class_of x.
+Proof. intros Hd x t H. rewrite (native_rep_eq _ _ _ _ H). now apply f64_roundtrip_class. Qed.
+
+(* ================= pretty Turtle: bare tokens ================= *)
+Lemma all_digits_span s : all_digits s = true -> span_digits s = (s, []).
+Proof. intros H. rewrite <- (app_nil_r s) at 1. now apply span_digits_app. Qed.
+Lemma re_decimal_not_integer s : re_decimal s = true -> re_integer s = false.
+Proof.
+  unfold re_decimal, re_integer. intros H.
+  destruct (digits1 (strip_sign s)) eqn:E; [|reflexivity].
+  apply digits1_iff in E as [_ E]. rewrite (all_digits_span _ E) in H. discriminate.
+Qed.
+Lemma split_exp_some s m x : split_exp s = (m, Some x) -> no_e s = false.
+Proof.
+  revert m. induction s as [|c r IH]; intros m H; simpl in H; [discriminate|].
+  simpl. destruct (is_e c) eqn:Ec; [reflexivity|].
+  destruct (split_exp r) as [m' e'] eqn:Er. injection H as <- ->. simpl. now apply (IH m').
+Qed.
+Lemma re_double_has_e s : re_double s = true -> no_e (strip_sign s) = false.
+Proof.
+  unfold re_double. destruct (split_exp (strip_sign s)) as [m [x|]] eqn:E.
+  - intros _. eapply split_exp_some; eauto.
+  - rewrite andb_false_r. discriminate.
+Qed.
+Lemma no_e_not_double s : no_e (strip_sign s) = true -> re_double s = false.
+Proof. intros H. destruct (re_double s) eqn:E; [|reflexivity]. apply re_double_has_e in E. congruence. Qed.
+Lemma re_double_not_integer s : re_double s = true -> re_integer s = false.
+Proof.
+  intros H. apply re_double_has_e in H. unfold re_integer.
+  destruct (digits1 (strip_sign s)) eqn:E; [|reflexivity].
+  apply digits1_iff in E as [_ E]. apply digits_no_e in E. congruence.
+Qed.
+Lemma re_double_not_decimal s : re_double s = true -> re_decimal s = false.
+Proof.
+  intros H. apply re_double_has_e in H. unfold re_decimal.
+  destruct (span_digits (strip_sign s)) as [i r] eqn:E.
+  apply span_digits_spec in E as (E & Hi & _). destruct r as [|c f]; [reflexivity|].
+  destruct (c =? 46) eqn:Ec; [|reflexivity]. simpl.
+  destruct (digits1 f) eqn:Ef; [|reflexivity]. exfalso.
+  apply digits1_iff in Ef as [_ Ef]. apply N.eqb_eq in Ec. subst c.
+  rewrite E, no_e_app, (digits_no_e _ Hi) in H. simpl in H. rewrite (digits_no_e _ Ef) in H. discriminate.
+Qed.
+Lemma re_boolean_only s : re_boolean s = true ->
+  re_integer s = false /\ re_decimal s = false /\ re_double s = false.
+Proof.
+  unfold re_boolean. intros H. apply orb_true_iff in H as [H|H]; apply str_eqb_eq in H; subst s;
+    repeat split; vm_compute; reflexivity.
+Qed.
+
+(* a literal the pretty serializer writes without quotes is read back by the Turtle grammar as the
+   same literal: same lexical form, and the datatype the token shape implies is the one it had *)
+Theorem bare_reads_back t : written_bare t = true -> read_bare (lexical t) = Some t.
+Proof.
+  unfold written_bare. destruct t as [s|s|lex dt|lex tag|s p o|s]; cbn [lexical_form datatype lexical]; try discriminate.
+  unfold read_bare. intros H.
+  apply orb_true_iff in H as [H|H]; [apply orb_true_iff in H as [H|H]; [apply orb_true_iff in H as [H|H]|]|];
+    apply andb_true_iff in H as [Hd Hr]; apply str_eqb_eq in Hd; subst dt.
+  - now rewrite Hr.
+  - now rewrite (re_decimal_not_integer _ Hr), Hr.
+  - now rewrite (re_double_not_integer _ Hr), (re_double_not_decimal _ Hr), Hr.
+  - destruct (re_boolean_only _ Hr) as (E1 & E2 & E3). now rewrite E1, E2, E3, Hr.
+Qed.
+
+(* native integers and booleans are always written bare (and so, by bare_reads_back, come back as
+   xsd:integer / xsd:boolean literals with the same lexical form) *)
+Theorem int_written_bare digits_of fixed ty z :
+  written_bare (native_term digits_of fixed (NInt ty z)) = true
+  /\ read_bare (print_int z) = Some (native_term digits_of fixed (NInt ty z)).
+Proof.
+  assert (H : written_bare (native_term digits_of fixed (NInt ty z)) = true).
+  { unfold written_bare, native_term. cbn [lexical_form datatype lexical_native datatype_native].
+    rewrite str_eqb_refl. unfold re_integer. pose proof (print_int_lex z) as L. unfold xsd_integer_lex in L.
+    now rewrite L. }
+  split; [exact H|]. apply bare_reads_back in H. exact H.
+Qed.
+Theorem bool_written_bare digits_of fixed b :
+  written_bare (native_term digits_of fixed (NBool b)) = true
+  /\ read_bare (print_bool b) = Some (native_term digits_of fixed (NBool b)).
+Proof. destruct b; split; vm_compute; reflexivity. Qed.
+(* native strings never are *)
+Theorem str_never_bare digits_of fixed s :
+  written_bare (native_term digits_of fixed (NStr s)) = false.
+Proof.
+  unfold written_bare, native_term. cbn [lexical_form datatype lexical_native datatype_native].
+  assert (E1 : str_eqb xsd_string xsd_integer = false) by (vm_compute; reflexivity).
+  assert (E2 : str_eqb xsd_string xsd_decimal = false) by (vm_compute; reflexivity).
+  assert (E3 : str_eqb xsd_string xsd_double = false) by (vm_compute; reflexivity).
+  assert (E4 : str_eqb xsd_string xsd_boolean = false) by (vm_compute; reflexivity).
+  now rewrite E1, E2, E3, E4.
+Qed.
+
+(* nor native doubles: Display never uses an exponent, and the Turtle DOUBLE token requires one.
+   (So no f64 is ever re-read as xsd:integer or xsd:decimal: it keeps its quotes and datatype.) *)
+Lemma no_e_zeros n : no_e (zeros n) = true.
+Proof. apply digits_no_e, all_digits_zeros. Qed.
+Lemma render_no_e neg ds exp : all_digits ds = true -> no_e (render neg ds exp) = true.
+Proof.
+  intros Hd. pose proof (digits_no_e _ Hd) as He. unfold render. rewrite no_e_app.
+  assert (Hs : no_e (sign_str neg) = true) by (destruct neg; reflexivity). rewrite Hs. cbn [andb].
+  destruct (exp <=? 0)%Z.
+  - rewrite !no_e_app, no_e_zeros, He. reflexivity.
+  - destruct (exp <? Z.of_nat (length ds))%Z.
+    + destruct (all_digits_firstn_skipn (Z.to_nat exp) ds Hd) as [Hf Hk].
+      rewrite !no_e_app, (digits_no_e _ Hf), (digits_no_e _ Hk). reflexivity.
+    + rewrite no_e_app, no_e_zeros, He. reflexivity.
+Qed.
+Lemma no_e_strip_sign s : no_e s = true -> no_e (strip_sign s) = true.
+Proof.
+  destruct s as [|c r]; [auto|]. unfold strip_sign. destruct (is_sign c); [|auto].
+  simpl. intros H. now apply andb_true_iff in H.
+Qed.
+Theorem f64_never_bare (digits_of : N -> Z -> str * Z) :
+  (forall m e, all_digits (fst (digits_of m e)) = true) ->
+  forall x, written_bare (native_term digits_of true (NF64 x)) = false.
+Proof.
+  intros Hd x. unfold written_bare, native_term. cbn [lexical_form datatype lexical_native datatype_native].
+  assert (E1 : str_eqb xsd_double xsd_integer = false) by (vm_compute; reflexivity).
+  assert (E2 : str_eqb xsd_double xsd_decimal = false) by (vm_compute; reflexivity).
+  assert (E4 : str_eqb xsd_double xsd_boolean = false) by (vm_compute; reflexivity).
+  rewrite E1, E2, E4, str_eqb_refl. cbn [andb orb]. rewrite orb_false_r.
+  apply no_e_not_double, no_e_strip_sign. unfold lexical_f64.
+  destruct x as [|[|]|[|]|neg m e]; try reflexivity.
+  cbn [display_f64]. specialize (Hd m e). destruct (digits_of m e) as [ds k]. now apply render_no_e.
+Qed.
+(* ... while a double written by other means with an exponent is bare and keeps its datatype *)
+Example bare_examples :
+  map written_bare [LitDt [49;101;53] xsd_double; LitDt [43;49;46;101;45;51] xsd_double; LitDt [49;46;53] xsd_double;
+                    LitDt [49;46;53] xsd_decimal; LitDt [46;53] xsd_decimal; LitDt [53;46] xsd_decimal; LitDt [43;48;48;55] xsd_integer;
+                    LitDt [49] xsd_boolean; LitDt s_true xsd_boolean; LitDt [49;101;53] xsd_decimal; LitDt [53] xsd_int;
+                    LitLang [53] [101;110]; Iri xsd_integer]
+  = [true; true; false; true; true; false; true; false; true; false; false; false; false].
+Proof. vm_compute. reflexivity. Qed.
